@@ -172,9 +172,10 @@ _train_rule = ("random training runs: window and n-gram sizes in 0..4 (independe
                "Lean model, which must assemble the byte-identical model; non-trivial = distinct case whose training returned a model")
 for _pid, _extra in (("C09", ""), ("C10", ""), ("C11", " — corpus kinds cycle through {empty, single class, untagged, partially tagged, partially annotated, ambiguous tags} and all 8 solvers"), ("C12", " — tagged corpora with ambiguity, absent tags, dictionary-only tokens")):
     PROPS[_pid] = {
-        "families": [_pid],
-        **({"bin_build": extras.build_repo_bins, "extras": [extras.c11_cli_train]} if _pid == "C11" else {}),
-        **({"bin_build": extras.build_repo_bins, "extras": [extras.c12_cli_train]} if _pid == "C12" else {}),
+        "families": [_pid] + (["TL"] if _pid in ("C10", "C11", "C12") else []),
+        **({"bin_build": extras.build_train_hooks} if _pid == "C10" else {}),
+        **({"bin_build": extras.build_repo_bins_and_hooks, "extras": [extras.c11_cli_train]} if _pid == "C11" else {}),
+        **({"bin_build": extras.build_repo_bins_and_hooks, "extras": [extras.c12_cli_train]} if _pid == "C12" else {}),
         "nontrivial": lambda line, out: out.startswith("X"),
         "rule": _train_rule + _extra,
         "scopes": {},
@@ -242,4 +243,4 @@ PROPS["C18"] = {
     "assumptions": ["memory safety inside daachorse and hashbrown and of deserialize_unchecked on self-produced bytes is outside the model"],
 }
 
-SETUP_EXTRA = [extras.build_repo_bins, extras.setup_feature_builds, extras.build_tantivy]
+SETUP_EXTRA = [extras.build_repo_bins, extras.build_train_hooks, extras.setup_feature_builds, extras.build_tantivy]
